@@ -268,6 +268,32 @@ fn rolled_back_withdraw_address_change() {
     witness("end");
 }
 
+/// found missing by seed C15h: a redelegation moves stake to a validator whose rewards were last
+/// settled earlier; the moved stake earns at the destination only from now on.  Bounds after every step,
+/// the withdrawal pays what is shown.
+fn redelegation_to_a_validator_with_an_older_reward_clock() {
+    let mut w = Stk::new(Cfg::default());
+    w.track_rewards = true;
+    w.fixed_amounts.push_back(STAKES_1[choose(3)] + 2);
+    w.fixed_amounts.push_back(STAKES_2[choose(2)]);
+    setup_positions(&mut w, &[Op::Delegate { d: 0, v: 0 }, Op::Delegate { d: 0, v: 1 }]);
+    w.fixed_amounts.push_back(1 + choose(2) as u128);
+    for op in [
+        Op::Advance { dt: DtSel::Sym(1, 400 * 86_400) },
+        Op::Redelegate { d: 0, src: 0, dst: 1 },
+        Op::Advance { dt: DtSel::Sym(0, 400 * 86_400) },
+        Op::Withdraw { d: 0, v: 1 },
+        Op::Withdraw { d: 0, v: 0 },
+    ] {
+        if !w.apply(&op, AMT) {
+            return;
+        }
+        w.check_reward_bounds("", false);
+        w.check_balances("");
+    }
+    witness("end");
+}
+
 pub fn scenarios(tier: &str) -> Vec<Scenario> {
     let mut v = vec![];
     v.push(Scenario::new("partial_unbonding_matures_then_withdraw", &["withdraw_ok", "unbonding_paid", "end"], partial_unbonding_then_withdraw));
@@ -287,6 +313,7 @@ pub fn scenarios(tier: &str) -> Vec<Scenario> {
     }));
     v.push(Scenario::new("strict_wording_at_a_whole_token_ideal_stake_700800000_for_59_seconds", &["end"], strict_wording_witness));
     v.push(Scenario::new("withdrawal_after_a_rolled_back_withdraw_address_change", &["address_change_rolled_back", "withdraw_ok", "end"], rolled_back_withdraw_address_change));
+    v.push(Scenario::new("redelegation_to_a_validator_with_an_older_reward_clock", &["redelegate_ok", "end"], redelegation_to_a_validator_with_an_older_reward_clock));
     v.push(Scenario::new("split_independence", &["end"], || split(true)));
     v.push(Scenario::new("split_independence_subsecond_block_times", &["end"], split_subsecond));
     if tier == "thorough" {
